@@ -54,6 +54,18 @@ NEUTRAL = [
     dict(name='add_plugin_rebinds_the_list', file=FN, pids=['C19'],
          old="    if plugin not in _plugins[scope]:\n        _plugins[scope].append(plugin)",
          new="    if plugin not in _plugins[scope]:\n        _plugins[scope] = _plugins[scope] + [plugin]"),
+    dict(name='remove_plugin_by_comprehension', file=FN, pids=['C19'],
+         old="    if plugin in _plugins[scope]:\n        _plugins[scope].remove(plugin)",
+         new="    if plugin in _plugins[scope]:\n        k_ = _plugins[scope].index(plugin)\n        _plugins[scope] = [p for j_, p in enumerate(_plugins[scope]) if j_ != k_]"),
+    dict(name='fork_handler_takes_upper_case_prefixes_too', file=TL, pids=['C20'],
+         old="        yert(val[0] in ('d', 'x'),\n            f'{opname} - argument must be prefaced with d or x - symbol {symbol_index}')\n        match val[0]:",
+         new="        yert(val[0].lower() in ('d', 'x'),\n            f'{opname} - argument must be prefaced with d or x - symbol {symbol_index}')\n        match val[0].lower():"),
+    dict(name='decrypt_adapter_without_the_vm', file=TL, pids=['C17', 'C18'],
+         old="    _, stack, _ = run_script(\n        adapter_witness +\n        make_adapter_decrypt(tweak).bytes\n    )\n    s = stack.get()\n    RT = stack.get()\n    return RT + s",
+         new="    sa_, R_ = adapter_witness[2:34], adapter_witness[36:68]\n    t_ = clamp_scalar(tweak)\n    RT = aggregate_points((R_, derive_point_from_scalar(t_)))\n    s = nacl.bindings.crypto_core_ed25519_scalar_add(sa_, t_)\n    return RT + s"),
+    dict(name='htlc_builder_reads_the_clock_once_more', file=TL, pids=['C15'],
+         old="    if preimage and not digest:\n        digest = sha256(preimage).digest()",
+         new="    time()\n    if preimage and not digest:\n        digest = sha256(preimage).digest()", count=2),
     dict(name='plugins_kept_in_a_copy_per_call', file=FN, pids=['C19'],
          old="    tape.plugins = {**_plugins, **plugins}\n    run_tape(tape, stack, cache, additional_flags=additional_flags)",
          new="    tape.plugins = {k: list(v) for k, v in {**_plugins, **plugins}.items()}\n    run_tape(tape, stack, cache, additional_flags=additional_flags)"),
